@@ -571,7 +571,7 @@ impl Property for C19 {
         "case = a macro declaration drawn from a grammar: make_static_metric! (Counter, IntCounter, Gauge, IntGauge, Histogram and \
          the three local types) or make_auto_flush_static_metric! (three local types, flush on every update or explicit flush \
          only), 1-4 labels with 1-4 values each (plus, per run, 1 (quick) / 6 (thorough) auto-flush declarations of deployment size: 2 labels with 35-60 values each, \
-         1200-3600 leaves, the thread-local root struct larger than 64 KiB), every label an inline list or a (possibly shared) label_enum, every value bare or \
+         1200-3600 leaves, the thread-local root struct larger than 64 KiB; and 6 / 40 declarations with 9-14 labels of 1-2 values each, all value strings distinct), every label an inline list or a (possibly shared) label_enum, every value bare or \
          renamed to a string from the adversarial fragment pool or to the string of an earlier value of the label (alias), identifiers from a pool that includes names likely to collide with \
          generated locals (x, m, root, inner, get, from, offset1, ...), and a generated permutation of the label order in the backing \
          vector. A batch of declarations is written as one crate (one module each) with a generated driver per declaration, built \
@@ -648,6 +648,23 @@ impl Property for C19 {
             Tier::Quick => 1,
             Tier::Thorough => 6,
         };
+        // ... and declarations with 9-14 labels, in a crate of their own
+        let ndeep = match tier {
+            Tier::Quick => 6,
+            Tier::Thorough => 40,
+        };
+        let mut x = crate::engine::splitmix(seed ^ 0xdee9);
+        let mut deep = vec![];
+        for _ in 0..ndeep {
+            let mut bytes = vec![3u8];
+            for _ in 0..40 {
+                x = crate::engine::splitmix(x);
+                bytes.push((x >> 24) as u8);
+            }
+            let d = decode_case(&bytes);
+            deep.push((bytes, d));
+        }
+        batches.push(deep);
         let mut x = crate::engine::splitmix(seed ^ 0x1a46e);
         for _ in 0..nlarge {
             let mut bytes = vec![2u8];
@@ -694,6 +711,9 @@ impl Property for C19 {
                     stats.distinct_nontrivial.insert(key);
                 }
                 *stats.classes.entry(if d.auto_flush { "auto-flush" } else { "static" }).or_default() += 1;
+                if d.labels.len() >= 9 {
+                    *stats.classes.entry("many-labels(9-14)").or_default() += 1;
+                }
                 if leaves(d).len() > 1000 {
                     *stats.classes.entry("deployment-size(1200-3600 leaves, thread-local root > 64 KiB)").or_default() += 1;
                 }
@@ -734,7 +754,33 @@ fn decode_with(src: &mut Src) -> Decl {
     if first == 2 {
         return gen_large(src);
     }
+    if first == 3 {
+        return gen_deep(src);
+    }
     gen_decl(src, first != 0)
+}
+
+/// A declaration with many labels (first byte of the case = 3): 9-14 labels, all but two or three of them with a single value, every
+/// value string distinct across the whole declaration - so that a value arriving under a neighbouring label's key is seen - and label
+/// positions with two digits.
+pub fn gen_deep(src: &mut Src) -> Decl {
+    let auto_flush = src.chance(110);
+    let mtype = if auto_flush { *src.pick(AUTO_TYPES) } else { *src.pick(STATIC_TYPES) };
+    let nlabels = 9 + src.below(6);
+    let mut two: Vec<usize> = vec![src.below(nlabels), src.below(nlabels)];
+    if src.chance(128) {
+        two.push(src.below(nlabels));
+    }
+    let mut labels = vec![];
+    for li in 0..nlabels {
+        let nv = if two.contains(&li) { 2 } else { 1 };
+        let renamed = src.chance(128);
+        let values = (0..nv)
+            .map(|vi| Value { ident: format!("v{:02}x{}", li, vi), rename: if renamed { Some(format!("{}/{}", li, vi)) } else { None } })
+            .collect();
+        labels.push(Label { name: format!("k{:02}", (li * 5 + 3) % 17), enum_name: if src.chance(60) { Some(format!("E{}", li)) } else { None }, values });
+    }
+    Decl { auto_flush, mtype, labels, vec_order: src.perm(nlabels), flush_every_update: src.chance(128) }
 }
 
 /// A declaration of deployment size (first byte of the case = 2): two labels of 30-60 values each, so that the generated structs hold
